@@ -185,4 +185,9 @@ def hxcImage (sides : Nat) (tracks : List (List (List Bool))) : Bytes :=
     ([], 0x13 + 11 * blobs.length)
   hdr ++ ents.1 ++ (blobs.map (·.2.2)).flatten
 
+/-- how one track of a side was laid down: the gaps and the physical order of the records -/
+structure Recording where
+  lay : Layout
+  order : List Nat
+
 end Beeb.Spec.Flux
